@@ -406,6 +406,10 @@ fn cancelled_receive_exec(which: &usize, ctx: &WorkerCtx) -> ExecResult {
 
 pub fn run(rep: &Report) -> Value { run_filtered(rep, None) }
 
+/// C02 at the connection: every malformed frame of the alphabet (and the floods of rejected frames) through the real
+/// receive loops - an error for that frame, never a panic.
+pub fn run_c02(rep: &Report) -> Value { run_filtered(rep, Some("MALFORMED")) }
+
 /// C09 at the connection: only the fragment arrival-order cases (receive_message; the read-half entry point is pass-through only).
 pub fn run_c09(rep: &Report) -> Value { run_filtered(rep, Some("kfragperm_")) }
 
@@ -413,7 +417,8 @@ fn run_filtered(rep: &Report, only: Option<&str>) -> Value {
     let thorough = rep.thorough();
     let mut total = Stats { executions: 0, transitions: 0, distinct_outcomes: 0, max_points: 0, bound_completed: 0, exhaustive: true, unstable: 0, diverged: 0, samples: vec![], outcomes: Default::default() };
     let mut parts = vec![];
-    let configs: Vec<(bool, bool)> = if only.is_some() { vec![(true, false)] } else { vec![(false, false), (true, false), (false, true)] };
+    let malformed_only = only == Some("MALFORMED");
+    let configs: Vec<(bool, bool)> = if only.is_some() && !malformed_only { vec![(true, false)] } else { vec![(false, false), (true, false), (false, true)] };
     for (dist, read_half) in configs {
         let alpha = alphabet(dist);
         let n = alpha.len();
@@ -432,10 +437,11 @@ fn run_filtered(rep: &Report, only: Option<&str>) -> Value {
             let red: Vec<usize> = (0..n).filter(|&i| matches!(alpha[i].name, "send" | "exit" | "tick" | "junk_bytes" | "hdr_identity_slots" | "fragmented_x2" | "frag_header_count_beyond_frame" | "unknown_kind_99")).collect();
             for &a in &red { for &b in &red { for &c in &red { seqs.push(vec![a, b, c]); } } }
         }
-        if let Some(f) = only { seqs.retain(|s| s.len() == 1 && alpha[s[0]].name.starts_with(f)); }
+        if malformed_only { seqs.retain(|s| s.len() == 1 && alpha[s[0]].frames.iter().all(|(_, e)| matches!(e, Exp::OneErr | Exp::Nothing))); }
+        else if let Some(f) = only { seqs.retain(|s| s.len() == 1 && alpha[s[0]].name.starts_with(f)); }
         for s in &seqs {
             cases.push(Case { items: s.clone(), seg: 0, dist, read_half });
-            if only.is_none() && s.len() <= 2 && !s.is_empty() {
+            if (only.is_none() || malformed_only) && s.len() <= 2 && !s.is_empty() {
                 cases.push(Case { items: s.clone(), seg: 1, dist, read_half });
                 if s.len() == 1 || thorough {
                     let first_len = alpha[s[0]].frames[0].0.len();
@@ -472,6 +478,7 @@ fn run_filtered(rep: &Report, only: Option<&str>) -> Value {
                     Some(false) if layout == "protocol" => {
                         // the protocol's layout is not delivered even in wire order: the recorded finding, once per order
                         let finding = if only.is_some() { "C09-ascending-id-order" } else { "C06-fragmented-message-not-reassembled" };
+                        if malformed_only { continue; }
                         for _ in others { if !rep.known(finding) { rep.violation(&format!("conforming message not delivered ({})", finding), json!({"configuration": name})); } }
                     }
                     _ => {}
@@ -486,7 +493,7 @@ fn run_filtered(rep: &Report, only: Option<&str>) -> Value {
         total.executions += st.executions; total.transitions += st.transitions; total.distinct_outcomes += st.distinct_outcomes; total.unstable += st.unstable;
         parts.push(json!({"configuration": name, "cases": cases.len(), "alphabet": alpha.iter().map(|a| a.name).collect::<Vec<_>>(), "distinct_outcomes": st.distinct_outcomes}));
     }
-    let floods: Vec<(usize, bool)> = if only.is_some() { vec![] } else { (0..6usize).flat_map(|k| [(k, false), (k, true)]).collect() };
+    let floods: Vec<(usize, bool)> = if only.is_some() && !malformed_only { vec![] } else { (0..6usize).flat_map(|k| [(k, false), (k, true)]).collect() };
     let st_f = for_all(rep, "300 rejected frames, then a valid deep message", &floods, |c, ctx| junk_flood_exec(c, ctx));
     total.executions += st_f.executions; total.transitions += st_f.transitions;
     json!({
